@@ -664,7 +664,10 @@ class Arbiter(object):
             rlist, wlist, xlist = select.select(sockets, [], [], 0)
             if rlist:
                 self.socket_event = True
-                self._start_watchers()
+                # wake up the on-demand watchers only: an ordinary watcher
+                # that was stopped by request stays stopped
+                self._start_watchers(watcher_iter_func=lambda: [
+                    w for w in self.iter_watchers() if w.on_demand])
                 self.socket_event = False
 
     @synchronized("arbiter_reload")
